@@ -39,3 +39,18 @@ for pkg in PACKAGES:
                 n_ = os.path.relpath(os.path.join(dp, f), repo)[:-3].replace(os.sep, ".")
                 mods.append(n_[: -len(".__init__")] if n_.endswith(".__init__") else n_)
 open(os.path.join(here, "known_modules.txt"), "w").write("# modules present in the tree the rules were written against (a module not listed was introduced by a later refactoring)\n" + "\n".join(sorted(mods)) + "\n")
+# from-imports of repo-internal names, per module (an import not listed was introduced by a later refactoring)
+imps = []
+for pkg in PACKAGES:
+    for dp, dn, fn in os.walk(os.path.join(repo, pkg)):
+        for f in sorted(fn):
+            if not f.endswith(".py"):
+                continue
+            rel = os.path.relpath(os.path.join(dp, f), repo)
+            name = rel[:-3].replace(os.sep, ".")
+            if name.endswith(".__init__"):
+                name = name[: -len(".__init__")]
+            for st in ast.walk(ast.parse(open(os.path.join(dp, f)).read())):
+                if isinstance(st, ast.ImportFrom) and (st.level >= 1 or (st.module or "").split(".")[0] in PACKAGES):
+                    imps += [f"{name}:{a.name}" for a in st.names]
+open(os.path.join(here, "known_imports.txt"), "w").write("# module:imported-name for the repo-internal from-imports of the tree the rules were written against\n" + "\n".join(sorted(set(imps))) + "\n")
